@@ -111,6 +111,8 @@ def _attackers(m, assets, cfg):
         t = AttackerAttachment(name='att B')
         m.add_attacker(t, attacker_id=40)
         t.add_entry_point(assets[1], 'back')
+        t = AttackerAttachment(name='idle attacker')        # no entry points at all
+        m.add_attacker(t, attacker_id=41)
 
 
 def body_ids(cube, **kw):
